@@ -170,7 +170,35 @@ func ruleCodeTable(c *chk.Ctx, d *dispatchModel) {
 	}
 	// check/assign: empty method, unknown method, duplicate
 	seen := map[string]bool{}
-	ir.Instrs(d.checkAssign, func(ins ssa.Instruction) {
+	// an error assignment: a store into task.err, or (when the stored value is the result of a
+	// private helper) a return of that helper, each with the branch outcomes known there
+	type errAssign struct {
+		val   ssa.Value
+		conds []ir.Cond
+		pos   token.Pos
+	}
+	var assigns []errAssign
+	var viaReturns func(call *ssa.Call, outer []ir.Cond, depth int)
+	viaReturns = func(call *ssa.Call, outer []ir.Cond, depth int) {
+		g := call.Call.StaticCallee()
+		if g == nil || depth > 2 || !c.P.InRepo[g] || !c.P.InExt(d.checkAssign, g) {
+			return
+		}
+		for _, r := range ir.Returns(g) {
+			for i := range r.Results {
+				v := ir.ReturnResult(r, i)
+				if !types.Identical(v.Type(), call.Type()) && g.Signature.Results().Len() != 1 {
+					continue
+				}
+				cs := append(append([]ir.Cond{}, outer...), ir.CondsAt(r.Block())...)
+				assigns = append(assigns, errAssign{v, cs, r.Pos()})
+				if inner, ok := v.(*ssa.Call); ok {
+					viaReturns(inner, cs, depth+1)
+				}
+			}
+		}
+	}
+	c.P.ExtInstrs(d.checkAssign, func(ins ssa.Instruction) {
 		st, ok := ins.(*ssa.Store)
 		if !ok {
 			return
@@ -179,15 +207,22 @@ func ruleCodeTable(c *chk.Ctx, d *dispatchModel) {
 		if !ok || ir.FieldVar(fa) != c.M.TErr {
 			return
 		}
-		g := errGlobalOf(c, st.Val)
+		cs := c.P.CondsWithin(st, d.checkAssign)
+		assigns = append(assigns, errAssign{st.Val, cs, st.Pos()})
+		if call, ok := st.Val.(*ssa.Call); ok {
+			viaReturns(call, cs, 0)
+		}
+	})
+	for _, a := range assigns {
+		g := errGlobalOf(c, a.val)
 		if g == nil {
-			return
+			continue
 		}
 		k := globs[g]
 		role := ""
-		for _, cd := range ir.CondsAt(st.Block()) {
+		for _, cd := range a.conds {
 			if bo, ok := cd.V.(*ssa.BinOp); ok && bo.Op == token.EQL && cd.Truth {
-				if s, isS := constString(bo.Y); isS && s == "" && chk.LoadsField(bo.X, c.M.QMethod) {
+				if s, isS := constString(bo.Y); isS && s == "" && chk.LoadsField(ir.NormCell(bo.X), c.M.QMethod) {
 					role = "empty method"
 				}
 			}
@@ -201,17 +236,22 @@ func ruleCodeTable(c *chk.Ctx, d *dispatchModel) {
 					role = "duplicate id"
 				}
 			}
+			if e, ok := cd.V.(*ssa.Extract); ok && e.Index == 1 && cd.Truth && role == "" {
+				if lk, isLk := e.Tuple.(*ssa.Lookup); isLk && lk.CommaOk {
+					role = "duplicate id"
+				}
+			}
 		}
 		if role == "" {
-			return
+			continue
 		}
 		wantK := spec["InvalidRequest"]
 		if role == "unknown method" {
 			wantK = spec["MethodNotFound"]
 		}
 		seen[role] = true
-		c.Check(k == wantK, "TABLE.codes", d.checkAssign, role, st.Pos(), fmt.Sprintf("%s is answered with code %d", role, k), fmt.Sprintf("%s is answered with code %d, want %d", role, k, wantK))
-	})
+		c.Check(k == wantK, "TABLE.codes", d.checkAssign, role, a.pos, fmt.Sprintf("%s is answered with code %d", role, k), fmt.Sprintf("%s is answered with code %d, want %d", role, k, wantK))
+	}
 	for _, role := range []string{"empty method", "unknown method", "duplicate id"} {
 		if !seen[role] {
 			c.Undecided("TABLE.codes", d.checkAssign, role, d.checkAssign.Pos(), "no error assignment found for the %s case", role)
@@ -223,7 +263,7 @@ func ruleCodeTable(c *chk.Ctx, d *dispatchModel) {
 func ruleInvalidNeverRuns(c *chk.Ctx, d *dispatchModel) {
 	f := d.checkAssign
 	carried := false
-	ir.Instrs(f, func(ins ssa.Instruction) {
+	c.P.ExtInstrs(f, func(ins ssa.Instruction) {
 		st, ok := ins.(*ssa.Store)
 		if !ok {
 			return
@@ -238,7 +278,7 @@ func ruleInvalidNeverRuns(c *chk.Ctx, d *dispatchModel) {
 		}
 		if chk.LoadsField(v, c.M.JErr) {
 			// governed by req.err != nil
-			for _, cd := range ir.CondsAt(st.Block()) {
+			for _, cd := range c.P.CondsWithin(st, f) {
 				if x, eq, ok := ir.NilCompare(cd.V); ok && chk.LoadsField(x, c.M.JErr) && eq != cd.Truth {
 					carried = true
 				}
@@ -248,7 +288,7 @@ func ruleInvalidNeverRuns(c *chk.Ctx, d *dispatchModel) {
 	c.Check(carried, "PAIR.invalid", f, "deferred validation error carried into the task", f.Pos(), "task.err ← member.err on the member.err != nil edge", "a member's validation error is not carried into its task: an invalid member could be given a handler")
 	// every store of a handler into a task is governed by t.err == nil
 	n := 0
-	ir.Instrs(f, func(ins ssa.Instruction) {
+	c.P.ExtInstrs(f, func(ins ssa.Instruction) {
 		st, ok := ins.(*ssa.Store)
 		if !ok {
 			return
@@ -258,9 +298,9 @@ func ruleInvalidNeverRuns(c *chk.Ctx, d *dispatchModel) {
 			return
 		}
 		n++
-		task := ir.NormCell(fa.X)
+		task := c.P.Canon(fa.X)
 		guarded := false
-		for _, cd := range ir.CondsAt(st.Block()) {
+		for _, cd := range c.P.CondsWithin(st, f) {
 			if known, isNil := isErrNilOfTask(c, cd, task); known && isNil {
 				guarded = true
 			}
@@ -1151,23 +1191,56 @@ func ruleErrorCodeOrder(c *chk.Ctx) {
 // ruleServerErrorMapping: C14-D4 (error member of the response) and D6.
 func ruleServerErrorMapping(c *chk.Ctx, d *dispatchModel) {
 	f := d.responses
-	n := 0
-	ir.Instrs(f, func(ins ssa.Instruction) {
+	// the values that can become the error member: stores into it, looking through private
+	// helpers that compute the stored value and through phis (with the outcomes on each edge)
+	type assign struct {
+		val   ssa.Value
+		conds []ir.Cond
+		pos   token.Pos
+	}
+	var assigns []assign
+	var expand func(v ssa.Value, conds []ir.Cond, pos token.Pos, depth int)
+	expand = func(v ssa.Value, conds []ir.Cond, pos token.Pos, depth int) {
+		if depth > 4 {
+			assigns = append(assigns, assign{v, conds, pos})
+			return
+		}
+		switch x := v.(type) {
+		case *ssa.Phi:
+			for i, e := range x.Edges {
+				expand(e, append(append([]ir.Cond{}, conds...), ir.EdgeConds(x.Block().Preds[i], x.Block())...), pos, depth+1)
+			}
+			return
+		case *ssa.Call:
+			if g := x.Call.StaticCallee(); g != nil && c.P.InRepo[g] && c.P.InExt(f, g) && g.Signature.Results().Len() == 1 {
+				for _, r := range ir.Returns(g) {
+					expand(ir.ReturnResult(r, 0), append(append([]ir.Cond{}, conds...), ir.CondsAt(r.Block())...), r.Pos(), depth+1)
+				}
+				return
+			}
+		}
+		assigns = append(assigns, assign{v, conds, pos})
+	}
+	c.P.ExtInstrs(f, func(ins ssa.Instruction) {
 		st, ok := ins.(*ssa.Store)
 		if !ok || !chk.IsField(st.Addr, c.M.JE) {
 			return
 		}
+		expand(st.Val, ir.CondsAt(st.Block()), st.Pos(), 0)
+	})
+	n := 0
+	for _, a := range assigns {
 		n++
-		v := st.Val
-		switch x := v.(type) {
+		switch x := a.val.(type) {
 		case *ssa.Extract:
 			ta, ok := x.Tuple.(*ssa.TypeAssert)
 			_, fv, isTask := taskFieldLoad(c, taOperand(ta))
-			c.Check(ok && x.Index == 0 && isTask && fv == c.M.TErr, "PROV.errmap", f, "*Error forwarded by identity", st.Pos(), "the error member is task.err itself when it is an *Error (type assertion, no unwrapping)", "an *Error is not forwarded by identity from task.err")
+			c.Check(ok && x.Index == 0 && isTask && fv == c.M.TErr, "PROV.errmap", f, "*Error forwarded by identity", a.pos, "the error member is task.err itself when it is an *Error (type assertion, no unwrapping)", "an *Error is not forwarded by identity from task.err")
 		case *ssa.Alloc:
 			// &Error{Code: c, Message: err.Error()}
-			var codeOK, msgOK bool
+			var msgOK bool
 			var detail []string
+			codeSrc, codeBad := 0, false
 			for _, ref := range *x.Referrers() {
 				fa, ok := ref.(*ssa.FieldAddr)
 				if !ok {
@@ -1180,27 +1253,47 @@ func ruleServerErrorMapping(c *chk.Ctx, d *dispatchModel) {
 					}
 					switch ir.FieldVar(fa).Name() {
 					case "Code":
-						if call, ok := s2.Val.(*ssa.Call); ok && call.Call.StaticCallee() != nil && call.Call.StaticCallee().Name() == "ErrorCode" {
-							if _, fv, ok := taskFieldLoad(c, call.Call.Args[0]); ok && fv == c.M.TErr {
-								codeOK = true
-								detail = append(detail, "Code=ErrorCode(task.err)")
+						// every value the code can take: ErrorCode(task.err), or InternalError on the
+						// edge where that code is NoError
+						var codes []assign
+						var ex func(v ssa.Value, conds []ir.Cond, depth int)
+						ex = func(v ssa.Value, conds []ir.Cond, depth int) {
+							v = ir.NormCell(v)
+							if phi, ok := v.(*ssa.Phi); ok && depth < 4 {
+								for i, e := range phi.Edges {
+									ex(e, append(append([]ir.Cond{}, conds...), ir.EdgeConds(phi.Block().Preds[i], phi.Block())...), depth+1)
+								}
+								return
 							}
+							codes = append(codes, assign{v, conds, s2.Pos()})
 						}
-						if k, isC := ir.ConstInt(s2.Val); isC {
-							internal, _ := pkgConstInt(c.M.Pkg, "InternalError")
-							noErr, _ := pkgConstInt(c.M.Pkg, "NoError")
-							onNoErr := false
-							for _, cd := range ir.CondsAt(st.Block()) {
-								if bo, ok := cd.V.(*ssa.BinOp); ok && bo.Op == token.NEQ && !cd.Truth {
-									if kk, isC := ir.ConstInt(bo.Y); isC && kk == noErr {
-										onNoErr = true
-									}
+						ex(s2.Val, append(append([]ir.Cond{}, a.conds...), ir.CondsAt(s2.Block())...), 0)
+						for _, cv := range codes {
+							if call, ok := cv.val.(*ssa.Call); ok && call.Call.StaticCallee() != nil && call.Call.StaticCallee().Name() == "ErrorCode" {
+								if _, fv, ok := taskFieldLoad(c, call.Call.Args[0]); ok && fv == c.M.TErr {
+									codeSrc++
+									detail = append(detail, "Code=ErrorCode(task.err)")
+									continue
 								}
 							}
-							if k == internal && onNoErr {
-								codeOK = true
-								detail = append(detail, "Code=InternalError on the NoError edge")
+							if k, isC := ir.ConstInt(cv.val); isC {
+								internal, _ := pkgConstInt(c.M.Pkg, "InternalError")
+								noErr, _ := pkgConstInt(c.M.Pkg, "NoError")
+								onNoErr := false
+								for _, cd := range cv.conds {
+									if bo, ok := cd.V.(*ssa.BinOp); ok {
+										if kk, isC := ir.ConstInt(bo.Y); isC && kk == noErr && ((bo.Op == token.NEQ && !cd.Truth) || (bo.Op == token.EQL && cd.Truth)) {
+											onNoErr = true
+										}
+									}
+								}
+								if k == internal && onNoErr {
+									codeSrc++
+									detail = append(detail, "Code=InternalError on the NoError edge")
+									continue
+								}
 							}
+							codeBad = true
 						}
 					case "Message":
 						if call, ok := s2.Val.(*ssa.Call); ok && call.Call.IsInvoke() && call.Call.Method.Name() == "Error" {
@@ -1211,13 +1304,22 @@ func ruleServerErrorMapping(c *chk.Ctx, d *dispatchModel) {
 					}
 				}
 			}
-			c.Check(codeOK && msgOK, "PROV.errmap", f, "other errors mapped by ErrorCode", st.Pos(), strings.Join(detail, ", ")+", Message=task.err.Error()", "a non-*Error handler error is not mapped with Code = ErrorCode(task.err) and Message = task.err.Error()")
+			c.Check(codeSrc > 0 && !codeBad && msgOK, "PROV.errmap", f, "other errors mapped by ErrorCode", a.pos, strings.Join(detail, ", ")+", Message=task.err.Error()", "a non-*Error handler error is not mapped with Code = ErrorCode(task.err) and Message = task.err.Error()")
 		default:
-			c.Fail("PROV.errmap", f, "error member", st.Pos(), "the error member has an unrecognised source (%T): an *Error must be forwarded by identity from task.err (no errors.As unwrapping, which would disagree with ErrorCode's precedence)", v)
+			c.Fail("PROV.errmap", f, "error member", a.pos, "the error member has an unrecognised source (%T): an *Error must be forwarded by identity from task.err (no errors.As unwrapping, which would disagree with ErrorCode's precedence)", a.val)
 		}
-	})
-	if n < 3 {
-		c.Undecided("PROV.errmap", f, "error member stores", f.Pos(), "found %d stores to the error member (want 3)", n)
+	}
+	hasIdentity, nAlloc := false, 0
+	for _, a := range assigns {
+		switch a.val.(type) {
+		case *ssa.Extract:
+			hasIdentity = true
+		case *ssa.Alloc:
+			nAlloc++
+		}
+	}
+	if !hasIdentity || nAlloc == 0 {
+		c.Undecided("PROV.errmap", f, "error member stores", f.Pos(), "found %d assignments to the error member (want the *Error-by-identity case and at least one mapped case)", n)
 	}
 	ruleInvokeResultsMarshalled(c, d)
 }
